@@ -18,6 +18,14 @@ def stories():
         # clients that never close: the stop has to close their sockets, and what was read before it is delivered or persisted
         {"id": "open-connections-at-stop", "keys": 2, "memWindow": 0, "gens": [{"upstream": ["healthy"], "clients": [dict(c(7), keepOpen=True), dict(c(12, 5, 10), keepOpen=True), c(5)], "stopAfterMs": 0, "inputFlushMs": 400}, fin]},
         {"id": "open-connections-at-stop-upstream-down", "keys": 1, "memWindow": 0, "gens": [{"upstream": ["closeNow"] * 10, "clients": [dict(c(3), keepOpen=True), dict(c(1), keepOpen=True)], "stopAfterMs": 10, "inputFlushMs": 400}, fin]},
+        # two outputs, each with its own upstream and queue root: what one output could not deliver is recovered after a
+        # restart even if nothing new arrives for that key set ("for each configured output")
+        {"id": "second-output-down-then-restart", "twoOutputs": True, "keys": 2, "memWindow": 0, "gens": [
+            {"upstream": ["healthy"], "upstream2": ["closeNow"] * 40, "clients": [c(12, 4, 35), c(8, 4, 35)], "stopAfterMs": 150},
+            {"upstream": [], "upstream2": [], "clients": [], "stopAfterMs": 20, "drain": True}]},
+        {"id": "first-output-silent-then-restart", "twoOutputs": True, "keys": 1, "memWindow": 0, "gens": [
+            {"upstream": ["noAck", "noAck", "noAck"], "upstream2": ["healthy"], "clients": [c(20, 5, 35)], "stopAfterMs": 100},
+            {"upstream": [], "upstream2": [], "clients": [], "stopAfterMs": 20, "drain": True}]},
         {"id": "stop-mid-retry", "keys": 2, "memWindow": 0, "gens": [{"upstream": ["closeNow"] * 30, "clients": [c(20, 5, 35)], "stopAfterMs": 0}, {"upstream": ["noAck"], "clients": [c(20, 5, 35)], "stopAfterMs": 0}, fin]},
     ]
 
@@ -33,13 +41,19 @@ def random_script(sid, rnd, reload_kinds=()):
             gen["reloadAtMs"] = rnd.choice([0, 5, 20, 50, 90, 150])
             if gen["reload"] == "keysdrop":
                 gen["twoKeys"] = True
+        gen["upstream2"] = [rnd.choices(BEH, [4, 2, 2, 2, 2, 2])[0] for _ in range(rnd.randint(0, 6))]
         if rnd.random() < 0.2:
             gen["inputFlushMs"] = 400
             for cl in gen["clients"][: rnd.randint(1, len(gen["clients"]))]:
                 cl["keepOpen"] = True
         gens.append(gen)
     gens.append({"upstream": [], "clients": [{"n": 2, "pauseEvery": 0, "pauseMs": 0, "delayMs": 0}], "stopAfterMs": 20, "drain": True})
-    return {"id": sid, "keys": rnd.choice([1, 2, 2, 3]), "memWindow": rnd.choice([0, 0, 2, 4]), "gens": gens}
+    sc = {"id": sid, "keys": rnd.choice([1, 2, 2, 3]), "memWindow": rnd.choice([0, 0, 2, 4]), "gens": gens}
+    if not reload_kinds and rnd.random() < 0.2:
+        sc["twoOutputs"] = True
+        if rnd.random() < 0.5:
+            gens[-1]["clients"] = []      # nothing new arrives after the last restart: the queues alone bring the pipelines back
+    return sc
 
 
 def script_from_behaviour(beh, sid, rnd):
